@@ -8,6 +8,7 @@ from vlib.obs import Err, Abort, guarded, gz, gzlist, gbytes, glist, gopt, gbool
 from ref import sdo_ref_client as R
 
 PROP = "C02"
+ANCHORS = [('canopen.sdo.server', 'SdoServer'), ('canopen.node.local', 'LocalNode.get_data'), ('canopen.node.local', 'LocalNode.set_data'), ('canopen.node.local', 'LocalNode._find_object'), ('canopen.objectdictionary', 'ODArray.__getitem__'), ('canopen.objectdictionary', 'ODRecord.__getitem__'), ('canopen.objectdictionary', 'ODVariable.encode_raw')]
 MODEL_VO = ["theories/Model/SdoServer.vo"]
 COQ_IMPORTS = "From CV Require Import Model.Codec Model.RefClient Model.SdoServer."
 COQ_RUN = "run_sdo"
